@@ -1,6 +1,7 @@
 """C14 - any single allocation failure is survived cleanly (partial)."""
 import os
 import random
+import re
 
 import simlib
 import simprops
@@ -24,7 +25,8 @@ ASSUMPTIONS = [
 ]
 EXPLANATION = ("alloc_failure_atomic theorems for the container layer (on failure: abstract value unchanged, invariant kept, failure "
                "reported) + for each scenario of a family and each allocation index n: fail only the n-th allocation, check no "
-               "crash, balanced ledger, exactly one callback per accepted request, failure reported or correct progress, channel "
+               "crash, balanced ledger, exactly one callback per accepted request, failure reported or correct progress (an address "
+               "lookup that still reports success delivers as many addresses per family as the failure-free run), channel "
                "still usable and destroyable.")
 RULE = ("cases = scenario x allocation index (all indexes the unfailed run performs; the quick tier samples them evenly); "
         "non-trivial when the injected failure actually fired; distinct by (scenario, index)")
@@ -73,6 +75,13 @@ SCENARIOS = {
                     "req tok=1 kind=gai name=www.example.com fam=0", "reply tx=0 kind=noerror an=2 ttl=30", "reply tx=1 kind=noerror an=1 ttl=30",
                     "procall", "req tok=2 kind=gai name=host fam=2", "reply tx=-1 kind=nxdomain", "proc r=-1", "reply tx=-1 kind=noerror an=1 ttl=3", "proc r=-1",
                     "req tok=3 kind=gai name=127.0.0.1 fam=2", "req tok=4 kind=gai name=localhost fam=0"],
+    "getaddrinfo-aaaa-first": ["chan servers=10.0.0.1 tries=2 timeout=1000",
+                               "req tok=1 kind=gai name=www.example.com fam=0", "reply tx=1 kind=noerror an=2 ttl=30",
+                               "reply tx=0 kind=noerror an=3 ttl=30", "procall",
+                               "req tok=2 kind=ghbn name=mail.example.org fam=0", "reply tx=-1 kind=noerror an=2 ttl=30",
+                               "reply tx=-2 kind=noerror an=1 ttl=30", "procall",
+                               "req tok=3 kind=gai name=a.example fam=0 sort=1", "reply tx=-2 kind=noerror an=2 ttl=30",
+                               "reply tx=-1 kind=nodata", "procall"],
     "hostby": ["chan servers=10.0.0.1 tries=2 timeout=1000",
                "req tok=1 kind=ghbn name=www.example.com fam=2", "reply tx=-1 kind=noerror an=2 ttl=30", "proc r=-1",
                "req tok=2 kind=ghba name=10.1.2.3", "reply tx=-1 kind=noerror an=1 ttl=30", "proc r=-1",
@@ -92,11 +101,46 @@ def _count_allocs(hbin, name, ops):
     return 0
 
 
+def _lookup_counts(data):
+    """(number of IPv4 addresses, number of IPv6 addresses) of a getaddrinfo / gethostbyname callback event"""
+    m = re.search(r"ai=([^,)]*)", data)
+    if m:
+        parts = [x for x in m.group(1).split(";") if x and not x.startswith(("name=", "cn="))]
+    else:
+        m = re.search(r"host=([^,)]*)", data)
+        if not m:
+            return None
+        parts = [x for x in m.group(1).split(";") if x][1:]
+    return (sum(1 for x in parts if ":" not in x), sum(1 for x in parts if ":" in x))
+
+
+def _lookup_cbs(out):
+    res = {}
+    for l in out:
+        for e in simlib.events(l):
+            m = re.match(r"cb\((-?\d+),(\w+),", e)
+            if m and ("ai=" in e or "host=" in e):
+                res.setdefault(int(m.group(1)), (m.group(2), _lookup_counts(e)))
+    return res
+
+
+def _baseline_lookups(hbin, name, ops):
+    """what the address lookups of the scenario deliver when no allocation fails: tok -> (v4 count, v6 count)"""
+    wd = os.path.join(vlib.BUILD, "work", "C14")
+    p = os.path.join(wd, "base.%s.in" % name)
+    write_cases(p, [ops + ["destroy"]])
+    rc, out, err, _ = vlib.run_prog([hbin], p, timeout=60)
+    return {tok: c for tok, (st, c) in _lookup_cbs(out.split("\n")).items() if st == "ok" and c is not None}
+
+
 def gen(rng, tier):
     hbin, _ = vlib.build_harness("h_sim")
     cases = []
     for name, ops in SCENARIOS.items():
         n = _count_allocs(hbin, name, ops)
+        base = _baseline_lookups(hbin, name, ops)
+        if base:
+            ops = ["# baseline " + " ".join("%d=%d/%d" % (tok, c[0], c[1]) for tok, c in sorted(base.items()))] + ops
         idxs = list(range(n))
         if tier == "quick" and n > 250:
             # quick: every index of the short scenarios, 250 evenly spread + 30 random ones of the long ones
@@ -114,6 +158,26 @@ def monitor(case, out):
         bad = [(("cancel-noop-on-alloc-failure", m) if s == "cb-missing-after-cancel" else (s, m)) for s, m in bad]
     fired = any(l.startswith("allocs=") and not l.endswith("fired=0") for l in out)
     joined = "\n".join(out)
+    # "reports failure (or proceeds correctly)" for address lookups: a lookup that reports success after the failure
+    # delivers as many addresses per family as without the failure - unless a server's answer was not accepted at all
+    # (the message could not be parsed for lack of memory: the server is marked failed, like for a garbage reply)
+    base = {}
+    for l in case:
+        if l.startswith("# baseline "):
+            base = {int(x.split("=")[0]): tuple(int(y) for y in x.split("=")[1].split("/")) for x in l.split()[2:]}
+    # gethostbyname(AF_UNSPEC) returns the family of the first node after sorting; when the (best-effort) sorting step is
+    # skipped for lack of memory the other family's complete list is a correct answer too: not compared
+    unspec_hostent = set()
+    for l in case:
+        if l.startswith("req ") and " kind=ghbn " in l + " " and " fam=0" in l + " ":
+            unspec_hostent.add(int(l.split("tok=")[1].split()[0]))
+    if base and fired and ",down," not in joined:
+        for tok, (st, cnt) in _lookup_cbs(out).items():
+            if st == "ok" and tok in base and tok not in unspec_hostent and cnt is not None and cnt != base[tok]:
+                bad.append(("lookup-partial-success-after-alloc-failure",
+                            "request %d reported success with %d IPv4 + %d IPv6 addresses after an allocation failed; "
+                            "without the failure the same answers give %d + %d (addresses of an accepted answer were "
+                            "dropped silently instead of reporting ARES_ENOMEM)" % (tok, cnt[0], cnt[1], base[tok][0], base[tok][1])))
     chan_failed = any(l.startswith("err:") for l in out[:4]) or "no-channel" in joined
     if not chan_failed and any(l.startswith("req tok=99 ") for l in case):
         # the channel must still work after the failure: the probe request completes successfully
@@ -126,7 +190,8 @@ def monitor(case, out):
 STREAMS = [
     Stream("allocfail", "h_sim", None, gen, monitor=monitor,
            nontrivial=lambda c, o: any(l.startswith("allocs=") and not l.endswith("fired=0") for l in o),
-           opkind=lambda l: l.split()[0] if not l.startswith("#") else "scenario:" + l.split()[1].split("=")[1]),
+           opkind=lambda l: l.split()[0] if not l.startswith("#") else
+           ("scenario:" + l.split()[1].split("=")[1] if l.startswith("# scenario=") else "#")),
 ]
 
 
